@@ -71,8 +71,14 @@ def h_sat(H):
             # mute
             it.ctx.oblige(f"mute.shape.{tag}", z3.And(z3.BoolVal(mute.ndim == 1), A.T(mute.shape[0]) == ns), "post")
             it.ctx.oblige(f"mute.range.{tag}", A.forall([t], lambda: z3.Implies(z3.And(t >= 0, t < ns), z3.And(mute.read((t,)) >= 0, mute.read((t,)) <= 1))), "post")
-            cv = it.ctx.conv_log
+            cv = getattr(it.ctx, "conv_log", [])
+            if not cv:
+                # a path without any convolution: only right if nothing is flagged on it (1 - flags * window is then 1 everywhere)
+                it.ctx.oblige(f"mute.without_convolution_only_if_no_flag.{tag}", A.forall([t], lambda: z3.Implies(z3.And(t >= 0, t < ns), z3.And(z3.Not(sat.read((t,))), mute.read((t,)) == 1))), "post")
+                return
             okc = len(cv) == 1 and getattr(cv[0]["w"], "window", (None,))[0] == "cosine"
+            if not okc:
+                raise Unsupported("cannot identify the convolution of the flags with the cosine taper")
             it.ctx.oblige(f"mute.depends_only_on_flags.{tag}", z3.And(z3.BoolVal(okc), A.forall([t], lambda: z3.Implies(z3.And(t >= 0, t < ns), cv[0]["x"]((t,)) == sat.read((t,)))) if okc else z3.BoolVal(False),
                                                                     (cv[0]["w"].window[1] == M) if okc else z3.BoolVal(False)), "post",
                           "the mute is 1 - convolution of the flags with the cosine window of the requested width, clipped at 0: no other data enters")
